@@ -14,6 +14,7 @@ import (
 	"0chain.net/chaincore/block"
 	"0chain.net/chaincore/state"
 	"0chain.net/chaincore/transaction"
+	"0chain.net/core/datastore"
 	"0chain.net/core/encryption"
 	"0chain.net/core/memorystore"
 	"0chain.net/smartcontract/dbs/event"
@@ -246,6 +247,24 @@ func run(h hist, kinds map[string]int) (caseTerm string, fail string) {
 		}
 		cs.Nodes = append(cs.Nodes[:di:di], cs.Nodes[di+1:]...)
 		cs.Nodes = append(cs.Nodes, old)
+	case "drop-dup":
+		// one changed leaf withheld, another node sent twice: count, root and block hash stay right
+		li := -1
+		for k := 0; k < len(cs.Nodes); k++ {
+			j := (idx + k) % len(cs.Nodes)
+			if _, ok := cs.Nodes[j].(*util.LeafNode); ok && !bytes.Equal(cs.Nodes[j].GetHashBytes(), cs.Hash) {
+				li = j
+				break
+			}
+		}
+		if li < 0 || len(cs.Nodes) < 2 {
+			kinds["drop-dup-not-applicable"]++
+			return "", ""
+		}
+		dj := (li + 1) % len(cs.Nodes)
+		dupNode := cs.Nodes[dj]
+		cs.Nodes = append(cs.Nodes[:li:li], cs.Nodes[li+1:]...)
+		cs.Nodes = append(cs.Nodes, dupNode)
 	case "empty":
 		cs.Nodes = nil
 	case "no-compute":
@@ -261,8 +280,14 @@ func run(h hist, kinds map[string]int) (caseTerm string, fail string) {
 	prevRootBefore := append([]byte{}, pmpt.GetRoot()...)
 	var out outcome
 	if compute {
-		if err := cs.ComputeProperties(); err != nil {
+		// as received from the network: encoded, decoded (separate node objects) and validated by
+		// the entity framework (FromMsgpack runs ComputeProperties)
+		wire := datastore.ToMsgpack(cs).Bytes()
+		rx := block.StateChangeProvider().(*block.StateChange)
+		if err := datastore.FromMsgpack(wire, rx); err != nil {
 			out.status = "invalid"
+		} else {
+			cs = rx
 		}
 	}
 	if out.status == "" {
@@ -314,7 +339,7 @@ func run(h hist, kinds map[string]int) (caseTerm string, fail string) {
 		if out.status == "ok" || out.status == "nochange" {
 			fail = "mismatching-change-accepted:" + h.Tamper
 		}
-	case h.Tamper == "drop" || h.Tamper == "dup" || h.Tamper == "extra" || h.Tamper == "empty":
+	case h.Tamper == "drop" || h.Tamper == "dup" || h.Tamper == "extra" || h.Tamper == "empty" || h.Tamper == "drop-dup":
 		// the node count no longer matches the block's
 		if out.status == "ok" || out.status == "nochange" {
 			fail = "mismatching-change-accepted:" + h.Tamper
@@ -323,16 +348,15 @@ func run(h hist, kinds map[string]int) (caseTerm string, fail string) {
 		if out.status == "ok" || out.status == "nochange" {
 			fail = "altered-change-accepted:" + h.Tamper
 		}
-	case h.Tamper == "subst":
-		// right root, right count: may be accepted, but must never yield a wrong value
-		if out.status == "ok" {
-			w, m := readAll(b2.ClientState, want)
-			if w > 0 {
-				fail = "accepted-change-yields-wrong-value"
-			}
-			if m > 0 {
-				kinds["accepted-incomplete-state"]++
-			}
+	}
+	if !honest && out.status == "ok" && fail == "" {
+		// whatever is accepted must be the declared state: every key of the executed state reads back
+		w, m := readAll(b2.ClientState, want)
+		if w > 0 {
+			fail = "accepted-change-yields-wrong-value"
+		} else if m > 0 {
+			kinds["accepted-incomplete-state"]++
+			fail = "accepted-incomplete-state:" + h.Tamper
 		}
 	}
 	if out.status != "ok" && fail == "" {
@@ -357,6 +381,12 @@ func run(h hist, kinds map[string]int) (caseTerm string, fail string) {
 	for _, n := range cs.Nodes {
 		nodes = append(nodes, nodeTerm(t, n))
 	}
+	var local []string
+	if hs, ok := collect(pmpt); ok {
+		for _, n := range hs {
+			local = append(local, nodeTerm(t, n))
+		}
+	}
 	prevState := "None"
 	if b2.PrevBlock != nil {
 		prevState = vh.Some(vh.Z(int64(t.id(b2.PrevBlock.ClientStateHash))))
@@ -371,11 +401,34 @@ func run(h hist, kinds map[string]int) (caseTerm string, fail string) {
 	if out.root != nil {
 		rootT = vh.Z(int64(t.id(out.root)))
 	}
-	caseTerm = fmt.Sprintf("{| scc_block := {| sb_hash := %s; sb_state := %s; sb_count := %s; sb_prev_state := %s |}; "+
+	caseTerm = fmt.Sprintf("{| scc_local := "+vh.List(local)+"; scc_block := {| sb_hash := %s; sb_state := %s; sb_count := %s; sb_prev_state := %s |}; "+
 		"scc_change := {| sc_blk := %s; sc_root := %s; sc_nodes := %s |}; scc_computed := %s; scc_status := %s; scc_root := %s |}",
 		bh(b2.Hash), vh.Z(int64(t.id(b2.ClientStateHash))), vh.Nat(b2.StateChangesCount), prevState,
 		bh(cs.Block), vh.Z(int64(t.id(cs.Hash))), vh.List(nodes), vh.Bool(compute), st, rootT)
 	return caseTerm, fail
+}
+
+// collect returns every node of the trie's state.
+func collect(m util.MerklePatriciaTrieI) (out []util.Node, ok bool) {
+	ok = true
+	root := m.GetRoot()
+	if len(root) == 0 {
+		return nil, true
+	}
+	var walk func(h []byte)
+	walk = func(h []byte) {
+		n, err := m.GetNodeDB().GetNode(h)
+		if err != nil || n == nil {
+			ok = false
+			return
+		}
+		out = append(out, n)
+		for _, c := range childHashes(n) {
+			walk(c)
+		}
+	}
+	walk(root)
+	return
 }
 
 // alter returns a node with the same shape and another content (so another hash).
@@ -442,7 +495,7 @@ func genOps(r *vh.Rand, n, keys int, delOK bool) []op {
 
 func key(h hist) string { return fmt.Sprintf("%v", h) }
 
-var tampers = []string{"none", "block-hash", "state-hash", "count+1", "count-1", "drop", "dup", "alter", "extra", "swap-root", "subst", "empty", "no-compute", "no-compute-same"}
+var tampers = []string{"none", "block-hash", "state-hash", "count+1", "count-1", "drop", "dup", "alter", "extra", "swap-root", "subst", "drop-dup", "empty", "no-compute", "no-compute-same"}
 
 func main() {
 	o := vh.ParseFlags()
@@ -517,7 +570,7 @@ func main() {
 			// the number of nodes is known only after execution: enumerate node indices generously
 			for _, tm := range tampers {
 				switch tm {
-				case "drop", "dup", "alter", "swap-root", "subst":
+				case "drop", "dup", "alter", "swap-root", "subst", "drop-dup":
 					n := o.N(3, 40)
 					for j := 0; j < n; j++ {
 						h := base
